@@ -385,12 +385,7 @@ func derivesFromCall(v ssa.Value, call *ssa.Call) bool {
 // (T, error): blocks dominated by the true edge of `if err != nil` (or false edge of err == nil).
 func errorEdgeBlocks(call *ssa.Call) map[*ssa.BasicBlock]bool {
 	out := map[*ssa.BasicBlock]bool{}
-	var errv ssa.Value
-	for _, ref := range flow.Referrers(call) {
-		if ex, ok := ref.(*ssa.Extract); ok && isErrorType(ex.Type()) {
-			errv = ex
-		}
-	}
+	errv := errorResult(call)
 	if errv == nil {
 		return out
 	}
@@ -438,4 +433,17 @@ func errorEdgeBlocks(call *ssa.Call) map[*ssa.BasicBlock]bool {
 func isErrorType(t types.Type) bool {
 	n, ok := t.(*types.Named)
 	return ok && n.Obj().Pkg() == nil && n.Obj().Name() == "error"
+}
+
+// errorResult returns the error-typed result value of a call (the call itself or an extract).
+func errorResult(call *ssa.Call) ssa.Value {
+	if isErrorType(call.Type()) {
+		return call
+	}
+	for _, ref := range flow.Referrers(call) {
+		if ex, ok := ref.(*ssa.Extract); ok && isErrorType(ex.Type()) {
+			return ex
+		}
+	}
+	return nil
 }
